@@ -35,7 +35,7 @@ type plug struct {
 	name   string
 	noresp bool
 	check  bool
-	s     *sched
+	s      *sched
 }
 
 func (p *plug) Name() string { return p.name }
@@ -48,7 +48,7 @@ func (p *plug) ValidateReq(req any) error {
 	}
 	return nil
 }
-func (p *plug) Request() any  { return Req{} }
+func (p *plug) Request() any { return Req{} }
 func (p *plug) Response() any {
 	if p.noresp {
 		return nil // a plugin that declares no response type
